@@ -100,6 +100,11 @@ func recovery(idx int64, r *rand.Rand) {
 		spec.Debug = true // a logger with debug enabled must not change what the algorithm does
 		rt.Count("recovery_runs_with_a_debug_logger", 1)
 	}
+	if kind == "vegas" && r.IntN(5) == 0 {
+		// a caller-supplied threshold that never calls for the aggressive step: the run grows by the default increase step
+		spec.Funcs = []string{"threshold=0", "threshold=-1"}[r.IntN(2)]
+		rt.Count("vegas_recovery_runs_with_a_caller_supplied_threshold", 1)
+	}
 	incBy := spec.IncBy
 	if kind == "aimd" && r.IntN(6) == 0 {
 		spec.IncBy = []int{0, -1}[r.IntN(2)] // "give me the default" increment: 1
@@ -195,7 +200,11 @@ func recovery(idx int64, r *rand.Rand) {
 		var B int
 		s := spec.Smoothing
 		if kind == "vegas" {
-			t1 := int(math.Ceil(math.Max(0, float64(ceil-e0)) / (6 * s)))
+			step := 6.0 // +beta (>= 6) per healthy sample while there is no queue
+			if spec.Funcs != "" {
+				step = 1 // the default increase step (log10 of the limit, at least 1)
+			}
+			t1 := int(math.Ceil(math.Max(0, float64(ceil-e0)) / (step * s)))
 			t2 := 1
 			if s < 1 {
 				t2 = int(math.Ceil(math.Log(float64(6*log10root(ceil)+1))/-math.Log(1-s))) + 1
